@@ -23,7 +23,9 @@ import LocustModel.Query.Group
   `checked_divide` on the in-band values; i64::MAX is shown as NULL.
 
   Anything outside this (string / float grouping columns, delta / lz4 / pco / dictionary codecs on grouping
-  columns, columns absent from a partition, value-rows fallback) is not predicted (`unknown`).
+  columns, aggregate inputs absent from a partition, absent grouping columns on the value-rows path, value-rows fallback)
+  is not predicted (`unknown`); a grouping column absent from a partition IS predicted for a single integer / string
+  grouping column and among several integer grouping columns (see `partitionResult`).
 -/
 namespace LM.GroupApi
 open LM LM.Sql LM.GroupSpec LM.GroupMerge LM.Group LM.Merge
@@ -267,13 +269,20 @@ def partitionResult (keys : List Nat) (iaggs : List IAgg) (metas : List ColMeta)
   let keyMetas := keys.map fun c => metas.getD c ColMeta.absent
   let kinds := keyKinds ++ List.replicate (keys.length - keyKinds.length) ColKind.int
   let keyKind := if kinds.all (· = .int) then ColKind.int else ColKind.other
+  -- A grouping column without data in this partition (`compile_grouping_key`: `gk_plan.is_null()` → the filtered
+  -- constant 0 as raw key, decoded as a NULL vector; `try_bitpacking`: a zero-width field): every kept row falls into
+  -- the NULL group of that column, so its NULL position is immaterial.  Predicted for a single integer / string
+  -- grouping column and for several integer grouping columns (the value-rows fallback casts the Null plan to Val and
+  -- fails: open finding `groupby-absent-column`, not predicted).
+  let absentOk (m : ColMeta) : Bool := !m.present && keyKind != .float && (keys.length = 1 || keyKind = .int)
   let nf := if keys.length = 1 then
               (match kinds.headD .int with
-               | .int => keyMetas.mapM (keyNullFirst true)
-               | k => keyMetas.mapM (singleOtherKeyNullFirst k))
+               | .int => keyMetas.mapM (fun m => if absentOk m then some true else keyNullFirst true m)
+               | .float => keyMetas.mapM (singleOtherKeyNullFirst .float)
+               | k => keyMetas.mapM (fun m => if absentOk m then some true else singleOtherKeyNullFirst k m))
             else (keyMetas.zip kinds).mapM fun (m, k) =>
               match k with
-              | .int => keyNullFirst false m
+              | .int => if absentOk m then some true else keyNullFirst false m
               | .float => none
               | .other =>
                   -- a dictionary-encoded string column among several bit-packed grouping columns
@@ -283,7 +292,8 @@ def partitionResult (keys : List Nat) (iaggs : List IAgg) (metas : List ColMeta)
   | some nullFirst =>
     -- several keys must be bit-packable
     let packable := keys.length ≤ 1 ||
-      (planPack (keyMetas.reverse.map fun m => ((effRange m).getD none, m.nullable)) 0).isSome
+      (planPack (keyMetas.reverse.map fun m =>
+        if absentOk m then (some (0, 0), false) else ((effRange m).getD none, m.nullable)) 0).isSome
     -- every aggregate input must be present in the partition
     let aggCols := iaggs.filterMap fun a => match a with
       | .cnt1 => none | .cnt c => some c | .sum c => some c | .min c => some c | .max c => some c
